@@ -7,6 +7,8 @@ UmGen/MetaConsts.lean:
     `epoch <= installed && !force` (`true`) or `epoch < installed && !force` (`false`);
   * `setMetaMapFirst` — `self.meta_map.store(..)` precedes `self.epoch.store(..)` in `set_meta`;
   * `setMetaHostCheckBeforeLock` — `check_hosts` precedes `self.lock.lock()`;
+  * `setMetaPoints` — the six scheduling points of `set_meta` (hook H4) in program order, each checked to sit
+    directly in front of the access it names (host check, lock, epoch test, map store, epoch store, unlock);
   * `switchReadsEpochFirst` — `handle_switch`, the only function that reads both shared cells, loads
     `epoch` before `meta_map`;
   * `replLoadRejectsEqual` / `replLockRejectsEqual` — the two epoch tests of
@@ -85,6 +87,25 @@ def gen_metaconsts():
         raise ExtractError(f"{p}: set_meta: host check has an unknown shape")
     if "NodeMap::new(cluster_meta.get_local().clone())" not in b:
         raise ExtractError(f"{p}: set_meta: host check is not over the local node map")
+    # scheduling points of hook H4 (concurrent SETCLUSTER stream): six, in this order, each directly in front
+    # of the access it names; the lock point is the last thing before `self.lock.lock()`, the unlock point the
+    # last statement of the locked block
+    spts = re.findall(r'verif_hook::point\("(setmeta\.[a-z_]+)"\)', b)
+    want_pts = ["setmeta.check_hosts", "setmeta.lock", "setmeta.epoch_test", "setmeta.map_store",
+                "setmeta.epoch_store", "setmeta.unlock"]
+    if spts != want_pts:
+        raise ExtractError(f"{p}: set_meta: scheduling points {spts} are not {want_pts}")
+    pp = [b.find(f'verif_hook::point("{n}")') for n in want_pts]
+    i_run = b.find("self.migration_manager.run_tasks(new_tasks);")
+    if not (pp[0] < i_chk < pp[1] < i_lock < pp[2] < i_cmp < pp[3] < i_map < pp[4] < i_ep < i_run < pp[5]):
+        raise ExtractError(f"{p}: set_meta: scheduling points and shared accesses are not interleaved as known")
+    if not re.search(r'verif_hook::point\("setmeta\.lock"\); let _guard = self\.lock\.lock\(\);', b):
+        raise ExtractError(f"{p}: set_meta: the lock point does not directly precede `self.lock.lock()`")
+    if not re.search(r'verif_hook::point\("setmeta\.unlock"\); \}; Ok\(\(\)\)', b):
+        raise ExtractError(f"{p}: set_meta: the unlock point is not the last statement of the locked block")
+    if b.count("self.epoch.load(") != 1 or b.count("self.lock.lock()") != 1:
+        raise ExtractError(f"{p}: set_meta: epoch load / lock not found exactly once")
+    out.append("def setMetaPoints : List String := [" + ", ".join(lean_str(n) for n in want_pts) + f"]  -- {p}")
     out.append(f"/-- `self.meta_map.store(..)` comes before `self.epoch.store(..)` -/")
     out.append(f"def setMetaMapFirst : Bool := {'true' if i_map < i_ep else 'false'}  -- {p}")
     out.append(f"def setMetaHostCheckBeforeLock : Bool := {'true' if i_chk < i_lock else 'false'}  -- {p}")
